@@ -48,6 +48,15 @@ NOTES = {
  "C06-e": "chains of 17..30 nested handlers were added after reading the agent's summary, before the first run (the model's tree decoder needed more fuel)",
  "C08-e": "file requests that declare a body (Content-Length) were added after reading the agent's summary, before the first run",
  "C10-e": "missed by C10 at first (the case existed in C20's generator only); caught after C10 also runs 'TLS server destroyed while handshakes are pending'",
+ "C11-e": "missed by C11 at first (C15's check reported the crash; C11 sampled too few of those cases); caught after C11 gained a dedicated stream: slots registered again while a whole-body invocation is waiting",
+ "C12-e": "missed at first (one client address); caught after cases carry other client addresses (IPv6, link-local, IPv4-mapped)",
+ "C13-e": "missed at first (always ': ' after the header name); caught after ':', ':<TAB>', ':  ', ' : '",
+ "C14-e": "missed at first; caught after a random-access source with short reads (cap < block size) was added to harness and model",
+ "C15-e": "missed at first; caught after old-style slots with another pointer type (QTcpSocket*) and with two arguments were added",
+ "C17-e": "missed at first; caught after header values made of the token written out cyclically (+255/+256/+512 bytes)",
+ "C18-e": "family `stream` (the next chunk written from inside the bytesWritten slot, over a real loopback connection) was added after reading the agent's summary, before the first run",
+ "C19-e": "missed at first; caught after a 6 MiB response written and closed at once is compared between TLS and plain TCP",
+ "C20-e": "missed at first; caught after configurations that restrict who may connect (client certificate / TLS 1.3 only) with a well-formed client that does not meet them",
  "C06-b": "caught on the first run, thanks to the refusal styles (silent / own fragment without close) added to model, spec and harness beforehand",
 }
 rows = []
